@@ -177,6 +177,21 @@ def run(ctx, prop, focus, n_hist, n_stall, stall_programs=1, n_istall=0):
     ctx.counters["instruction-stall-points-enumerated"] = len(ipts)
     imine = [pt for i, pt in enumerate(ipts) if ctx.mine(i)]
     rng.shuffle(imine)
+    # read-modify-write windows first: every one of them is tried in every run (both tiers)
+    import jsonrpclib.threadpool as tp
+    rmw = set(inject.rmw_points(tp))
+    first = [pt for i, pt in enumerate(p for p in ipts if (p["qualname"], p["offset"]) in rmw) if ctx.mine(i)]
+    ctx.counters["rmw-stall-points-enumerated"] = len(first)
+    for pt in first:
+        if ctx.time_left() < 5:
+            break
+        for rep in range(2):
+            prog = poolmon.gen_program(rng, focus)
+            plan = dict(pt, budget=rng.choice([60, 150, 400]), cap=0.03)
+            hits0 = inj.hits
+            run_one(ctx, prop, inj, prog, "istall", rng.randrange(1 << 30), plan=plan)
+            if inj.hits > hits0:
+                ctx.count("rmw-stall-points-hit")
     for pt in imine[:n_istall]:
         if ctx.time_left() < 5:
             ctx.unsure("time budget exhausted during the instruction-level sweep")
